@@ -89,12 +89,42 @@ def _mark(e, attr):
         pass
 
 
-def traced_pool_class(base, log, active):
+def traced_record_class(rec_log):
+    """subclass of _ConnectionRecord (same layout) whose `fairy_ref` slot is wrapped by a
+    property reporting every write: rec_log(record, value)"""
+    import sqlalchemy.pool.base as pbase
+
+    slot = pbase._ConnectionRecord.__dict__["fairy_ref"]
+
+    class TracedRecord(pbase._ConnectionRecord):
+        __slots__ = ()
+
+        def _get_fr(self):
+            return slot.__get__(self, pbase._ConnectionRecord)
+
+        def _set_fr(self, v):
+            slot.__set__(self, v)
+            rec_log(self, v)
+
+        fairy_ref = property(_get_fr, _set_fr)
+
+    return TracedRecord
+
+
+def traced_pool_class(base, log, active, rec_log=None):
     """subclass of `base` (QueuePool / AsyncAdaptedQueuePool) whose _overflow is a
     property that reports reads / writes through `log(kind, value)` while
-    `active()` is true"""
+    `active()` is true; with rec_log, the records it creates report writes of fairy_ref"""
+    rec_cls = traced_record_class(rec_log) if rec_log is not None else None
 
     class Traced(base):
+        if rec_cls is not None:
+
+            def _create_connection(self):
+                rec = base._create_connection(self)
+                rec.__class__ = rec_cls
+                return rec
+
         def _get_ov(self):
             v = self.__dict__["_ov"]
             # overflow() / checkedout() / status() are reporting accessors (used e.g. to
@@ -117,7 +147,7 @@ def traced_pool_class(base, log, active):
 class PoolRun:
     """one scheduled execution of thread programs against a real QueuePool"""
 
-    def __init__(self, cfg, programs, chooser, max_steps=6000, pool_kw=None, early=True):
+    def __init__(self, cfg, programs, chooser, max_steps=6000, pool_kw=None, early=True, trace_base=False, trace_records=False):
         """cfg: dict(size, max_overflow, lifo, timeout); programs: list (per thread) of ops:
         ("co",) ("ci",k) ("inv",k) ("soft",k) ("drop",k) ("failnext",n)"""
         self.cfg = cfg
@@ -137,6 +167,11 @@ class PoolRun:
         self.held = [[] for _ in programs]  # live fairies per thread
         self.failplan = [0 for _ in programs]
         self.op_start_clock = {}
+        self.opidx = [-1 for _ in programs]  # index of the op each thread is executing
+        # trace_base: pool/base.py (checkout / checkin / _finalize_fairy ...) yields at every
+        # line too; trace_records: labels fs:<rid> / fc:<rid> at every write of fairy_ref
+        self.trace_base = trace_base
+        self.trace_records = trace_records
 
     # ------------------------------------------------------------------ logging
     def rid(self, rec):
@@ -305,7 +340,8 @@ class PoolRun:
         sched = self.sched
         held = self.held[w.idx]
         out = self.outcomes[w.idx]
-        for op in self.programs[w.idx]:
+        for i, op in enumerate(self.programs[w.idx]):
+            self.opidx[w.idx] = i
             sched.yield_point("op")
             kind = op[0]
             try:
@@ -346,6 +382,7 @@ class PoolRun:
             except BaseException as e:  # noqa
                 out.append(type(e).__name__)
                 self.fail("unexpected-exception", "%s raised %s: %s" % (op, type(e).__name__, e))
+        self.opidx[w.idx] = len(self.programs[w.idx])
 
     # ------------------------------------------------------------------ run
     def run(self, pool_cls_name="QueuePool"):
@@ -364,8 +401,8 @@ class PoolRun:
         cfg = self.cfg
         sched = self.sched = lib_sched.Sched(
             self.chooser,
-            trace_files=("sqlalchemy/pool/impl.py", "sqlalchemy/util/queue.py"),
-            event_files=("sqlalchemy/pool/base.py",),
+            trace_files=("sqlalchemy/pool/impl.py", "sqlalchemy/util/queue.py") + (("sqlalchemy/pool/base.py",) if self.trace_base else ()),
+            event_files=() if self.trace_base else ("sqlalchemy/pool/base.py",),
             max_steps=self.max_steps,
         )
         sched.early_timeouts = self.early
@@ -392,7 +429,13 @@ class PoolRun:
             pimpl.threading = shim
             squeue._time = sched.now
             pbase.time = TimeShim()
-            cls = traced_pool_class(getattr(pimpl, pool_cls_name), self.log_ov, lambda: sched.cur() is not None)
+
+            def rec_log(rec, v):
+                w = sched.cur()
+                if w is not None:
+                    self.log("%s:%d" % ("fc" if v is None else "fs", self.rid(rec)), w)
+
+            cls = traced_pool_class(getattr(pimpl, pool_cls_name), self.log_ov, lambda: sched.cur() is not None, rec_log if self.trace_records else None)
             self.pool = cls(
                 self._creator,
                 pool_size=cfg["size"],
